@@ -96,7 +96,22 @@ func c09Check(c *mon.Ctx, g *logenc.Group) {
 	var generic any
 	json.Unmarshal(b, &generic)
 	have := map[string]bool{}
-	leaves(generic, have)
+	// the places the statement names: Data, Paths, Process, User ids / SELinux labels, Result, Session,
+	// Tags, Source / Destination (a copy in the summary or the ECS fields does not count as retention)
+	if top, ok := generic.(map[string]any); ok {
+		for _, sect := range []string{"data", "paths", "process", "result", "session", "tags", "source", "destination"} {
+			if v, ok := top[sect]; ok {
+				leaves(v, have)
+			}
+		}
+		if u, ok := top["user"].(map[string]any); ok {
+			for _, sect := range []string{"ids", "selinux"} {
+				if v, ok := u[sect]; ok {
+					leaves(v, have)
+				}
+			}
+		}
+	}
 	var warn []string
 	for _, w := range ev.Warnings {
 		warn = append(warn, w.Error())
@@ -138,7 +153,14 @@ func c09Check(c *mon.Ctx, g *logenc.Group) {
 			// excused only by a warning that names the problem: this key, or this record's type
 			excused := false
 			for _, w := range warn {
-				if strings.Contains(w, "("+k+")") || strings.Contains(w, " "+k+" ") || strings.Contains(w, m.RecordType.String()) {
+				if strings.Contains(w, "duplicate key (") {
+					// a duplicate-key warning names exactly one key: it excuses that key only
+					if strings.Contains(w, "duplicate key ("+k+")") {
+						excused = true
+					}
+					continue
+				}
+				if strings.Contains(w, "("+k+")") || strings.Contains(w, " "+k+" ") || strings.Contains(w, "'"+k+"'") || strings.Contains(w, m.RecordType.String()) {
 					excused = true
 				}
 			}
